@@ -16,6 +16,7 @@ import collections
 from .. import core
 from .. import structworld as W
 from .. import struct_props as S
+from .. import struct_api_gen as api
 from ..impl import mx, close_all, quiet
 
 CFG = {
@@ -226,6 +227,7 @@ def run(ctx, out):
         if len([f for f in out.failures if not f.get("key")]) >= 6:
             break
     stats["clash_family_refused"] = refused
+    api.run_struct(ctx, out, stats, H, CFG, S.run_one)
     out.coverage["evaluations"] += len(fam)
     out.coverage["input_distribution"] = dict(stats)
     out.coverage["rule"] += ("; plus the clash family: %d programs = (kind a sub space / sub-sub space uses a name for) x "
